@@ -5,7 +5,7 @@ okane-core + report/format commands + main, and E9-top (main maps Err to exit(1)
 """
 from analysis import mir, panics, q
 from analysis.mir import norm, callee, callee_def, callee_names, prov
-from . import common, surface, shared
+from . import common, surface, shared, spans
 
 EXPLANATION = (
     "Static enumeration over MIR of every construct in okane-core, the report/format "
@@ -15,7 +15,10 @@ EXPLANATION = (
     "Each instance must be discharged by a structural guard idiom checked on every path "
     "(dominating comparison / is_zero / is_some test on the same operand), by a reviewed "
     "table entry whose supporting obligations are re-checked on every run, or be a listed "
-    "known finding; anything else is a violation.  main's Err arm must reach exit(non-zero)."
+    "known finding; anything else is a violation.  Byte ranges handed to the snippet renderer "
+    "(which slices the source text with them) are traced back to where their bounds are computed: "
+    "an offset +/- a literal byte count that is not filtered through is_char_boundary is a violation.  "
+    "main's Err arm must reach exit(non-zero)."
 )
 
 R_MAIN = "E9.main-exit"
@@ -44,4 +47,5 @@ def run(P, chk, tier):
     nscc = S.sccs(bodies)
     chk.floor("recursion cycles", nscc, 4)
     S.finish()
+    spans.check(P, chk)
     check_main_exit(P, chk)
